@@ -303,6 +303,32 @@ def lock_free_reads(repo):
     return res
 
 
+def lock_sources(repo):
+    """every definition of get_lock(): (site, the mutex it declares is a function-local static, the lock it returns is taken on
+    that very object).  One mutex per process is what makes the lexical lock scopes exclude one another."""
+    rel = 'include/trompeloeil/mock.hpp'
+    raw = open(os.path.join(repo, rel)).read()
+    src = re.sub(r'//[^\n]*', lambda m: ' ' * len(m.group(0)), re.sub(r'/\*.*?\*/', lambda m: re.sub(r'[^\n]', ' ', m.group(0)), raw, flags=re.S))
+    res = []
+    for m in re.finditer(r'\bget_lock\s*\(\s*\)\s*\{', src):
+        d, j = 0, m.end() - 1
+        while j < len(src):
+            if src[j] == '{':
+                d += 1
+            elif src[j] == '}':
+                d -= 1
+                if d == 0:
+                    break
+            j += 1
+        body = re.sub(r'\s+', ' ', src[m.end():j])
+        site = 'mock.hpp:%d' % (src.count('\n', 0, m.start()) + 1)
+        decl = re.search(r'\bstatic\s+(?:auto|std::unique_ptr<[\w:]+>)\s+(\w+)\s*=', body)
+        name = decl.group(1) if decl else ''
+        ret = re.search(r'return\s+unique_lock<[\w:]+>\s*\{\s*\*\s*(\w+)\s*\}\s*;', body)
+        res.append((site, bool(decl), bool(ret) and ret.group(1) == name and name != ''))
+    return res
+
+
 def lean_str(s):
     return '"' + s.replace('\\', '\\\\').replace('"', '\\"') + '"'
 
@@ -328,6 +354,10 @@ def generate(repo, path):
     lines += ['', '/-- statements of lock-taking functions that give the lock up before the end of its scope (unlock / release / swap / move) -/',
               'def earlyUnlocks : List (String × String × String) := [',
               ',\n'.join('  (%s, %s, %s)' % (lean_str(a), lean_str(b), lean_str(c)) for a, b, c in early), ']']
+    srcs = lock_sources(repo)
+    lines += ['', '/-- every definition of get_lock(): (site, its mutex is a function-local static, the returned lock is taken on that mutex) -/',
+              'def lockSources : List (String × Bool × Bool) := [',
+              ',\n'.join('  (%s, %s, %s)' % (lean_str(a), 'true' if b else 'false', 'true' if c else 'false') for a, b, c in srcs), ']']
     lines += ['end Tromp.Gen', '']
     new = '\n'.join(lines)
     old = open(path).read() if os.path.exists(path) else None
